@@ -90,6 +90,7 @@ class LArr(np.ndarray):
     """See the module docstring.  Subclasses ndarray only to pass ``isinstance`` checks."""
     __array_ufunc__ = None
     __array_priority__ = 1000
+    _is_larr = True
 
     def __new__(cls, length, fn=None, base=None, start=0, step=1, dtype='float64'):
         self = np.ndarray.__new__(cls, (0,), dtype=object)
@@ -133,6 +134,12 @@ class LArr(np.ndarray):
             f, s, st = self._base._fn, self._start, self._step
             return lambda k: f(s + st * k)
         return self._fn
+
+    def ravel(self, order='C'):
+        return self
+
+    def reshape(self, *shape, **kw):
+        raise EngineGap('reshape of a symbolic-length array')
 
     def copy(self, order='C'):
         return LArr(self._len, self.frozen_fn(), dtype=self._dt)
@@ -286,6 +293,13 @@ class LArr(np.ndarray):
         return self._inplace(o, lambda a, b: a / b)
 
 
+class _AllTrue(object):
+    """Result of an entry-wise predicate that holds for every entry of a symbolic-length array."""
+
+    def __init__(self, length):
+        self.length = length
+
+
 class LProxy(object):
     """Layer over a module's ``np`` that understands ``LArr`` (everything else is delegated)."""
 
@@ -333,6 +347,18 @@ class LProxy(object):
                 m = 0
             return LArr(m, lambda i: lo + i, dtype=k.get('dtype') or 'int64')
         return self._inner.arange(*a, **k)
+
+    def isfinite(self, a, *args, **k):
+        if isinstance(a, LArr):
+            return _AllTrue(a._len)          # exact arithmetic: every entry is a finite number
+        return self._inner.isfinite(a, *args, **k)
+
+    def where(self, cond, *xy):
+        if isinstance(cond, _AllTrue):
+            return xy[0]
+        if any(isinstance(v, LArr) for v in (cond,) + tuple(xy)):
+            raise EngineGap('np.where on symbolic-length arrays')
+        return self._inner.where(cond, *xy)
 
     def empty_like(self, a, dtype=None, order='K', subok=True, shape=None):
         if isinstance(a, LArr):
